@@ -69,7 +69,7 @@ def run(chk):
     chk.coq()
     # the distance kernels: theories/Model_Quadrature.v (PrimFloat instance) against the real FineContour.calcDistance / reverse / getDistance
     from props import quad
-    chk.trust("hand model theories/Model_Quadrature.v of FineContour.calcDistance / reverse / getDistance / interpFunction (numpy cumsum / argmin / searchsorted, closest_approach, scipy interp1d with extrapolation) and of FineContour.equaliseSpacing (refine stubbed to the identity: the model's contract; contours of at most 8 points, where numpy.mean sums from the left), "
+    chk.trust("hand model theories/Model_Quadrature.v of FineContour.calcDistance / reverse / getDistance / interpFunction (numpy cumsum / argmin / searchsorted, closest_approach, scipy interp1d with extrapolation) and of FineContour.equaliseSpacing (refine stubbed to the identity: the model's contract; numpy's pairwise summation in numpy.mean modelled), "
               "run bit for bit (binary64) against the real methods on every run")
     qc = quad.correspondence(chk, 320 if chk.tier == "quick" else 3000, ["distance", "getdist", "interp", "equalise"], "distance")
     grids = corpus.get(tier=chk.tier)
